@@ -85,6 +85,7 @@ def run(ctx):
     check_fields_released(P, ctx)
     check_files(P, ctx, tables)
     check_local_ownership(P, ctx)
+    check_record_teardown(P, ctx)
 
 
 FD_SOURCES = {"socket", "accept", "accept4", "eventfd", "timerfd_create", "epoll_create1", "epoll_create", "open", "openat", "dup", "signalfd", "inotify_init1"}
@@ -940,11 +941,34 @@ def check_local_ownership(P, ctx):
     allrel = set()
     for v in OWN_PAIRS.values():
         allrel |= v
+    # out-parameter creators and the helpers that pass their own out-parameters on to one (load_credentials(..., &cert_data,
+    # ...) -> item_load(cert, cert_data)): name -> (argument positions, releasers, is a wrapper)
+    outc = {k: ([v[0]], v[1], False) for k, v in OUT_CREATORS.items()}
+    changed = True
+    while changed:
+        changed = False
+        for g in P.functions:
+            if not g.file.startswith(("libxcm/", "common/")) or g.name in OUT_CREATORS:
+                continue
+            for c in g.calls():
+                nm = g.nodes[c].get("callee") or ""
+                if nm not in outc:
+                    continue
+                for ai in outc[nm][0]:
+                    if ai >= len(g.nodes[c]["args"]):
+                        continue
+                    a = g.nodes[g.origin(g.nodes[c]["args"][ai])]
+                    if a["k"] == "ref" and a.get("dk") == "param":
+                        pi = [i for i, p_ in enumerate(g.params) if p_["name"] == a["name"]][0]
+                        cur = outc.get(g.name, ([], outc[nm][1], True))
+                        if pi not in cur[0]:
+                            outc[g.name] = (sorted(cur[0] + [pi]), cur[1] | outc[nm][1], True)
+                            changed = True
     ninst = 0
     for f in P.functions:
         if not f.file.startswith(("libxcm/", "common/")) or f.name in OWN_PAIRS:
             continue
-        creators = [c for c in f.calls() if (f.nodes[c].get("callee") or "") in OWN_PAIRS or (f.nodes[c].get("callee") or "") in OUT_CREATORS]
+        creators = [c for c in f.calls() if (f.nodes[c].get("callee") or "") in OWN_PAIRS or (f.nodes[c].get("callee") or "") in outc]
         if not creators:
             continue
         bad = []
@@ -988,13 +1012,16 @@ def check_local_ownership(P, ctx):
                 if k == "call":
                     name = n.get("callee") or ""
                     defs, exts = P.callees(fn, nid)
-                    if name in OUT_CREATORS and OUT_CREATORS[name][0] < len(n["args"]):
-                        a = fn.sn(n["args"][OUT_CREATORS[name][0]])
-                        if a["k"] == "un" and a["op"] == "&":
-                            v = self._var(fn, a["sub"])
-                            if v is not None:
-                                # owned from here on; the failing edge of the call's own test drops it again (branch)
-                                st = frozenset(x for x in st if x[0] != v) | {(v, name)}
+                    if name in outc:
+                        for oi in outc[name][0]:
+                            if oi >= len(n["args"]):
+                                continue
+                            a = fn.sn(n["args"][oi])
+                            if a["k"] == "un" and a["op"] == "&":
+                                v = self._var(fn, a["sub"])
+                                if v is not None:
+                                    # owned from here on; the failing edge of the call's own test drops it again (branch)
+                                    st = frozenset(x for x in st if x[0] != v) | {(v, name)}
                         return st
                     for ai, a in enumerate(n["args"]):
                         v = self._var(fn, a)
@@ -1010,7 +1037,7 @@ def check_local_ownership(P, ctx):
                         if not owned:
                             continue
                         cr = owned[0][1]
-                        if name in OWN_PAIRS.get(cr, ()) or name in allrel or (name.endswith("_free") and ai == 0) or (cr in OUT_CREATORS and name in OUT_CREATORS[cr][1]):
+                        if name in OWN_PAIRS.get(cr, ()) or name in allrel or (name.endswith("_free") and ai == 0) or (cr in outc and name in outc[cr][1]):
                             st = st - {owned[0]}
                         elif ai in OWN_SINKS_EXT.get(name, ()):
                             st = st - {owned[0]}
@@ -1068,11 +1095,12 @@ def check_local_ownership(P, ctx):
                 v = ln["name"] if ln["k"] == "ref" and ln.get("dk") == "local" else None
                 if v is not None and op == "==":
                     return frozenset(y for y in st if y[0] != v)     # NULL: nothing was obtained
-                if ln["k"] == "call" and (ln.get("callee") or "") in OUT_CREATORS and op == "<":
-                    a = fn.sn(ln["args"][OUT_CREATORS[ln["callee"]][0]])
+                if ln["k"] == "call" and (ln.get("callee") or "") in outc and not outc[ln["callee"]][2] and op == "<":
+                    a = fn.sn(ln["args"][outc[ln["callee"]][0][0]])
                     if a["k"] == "un" and a["op"] == "&":
                         ov = self._var(fn, a["sub"])
                         return frozenset(y for y in st if y[0] != ov)    # the call failed: nothing was handed out
+                    # (a wrapper that loads several items may fail after some were handed out: they stay owned)
                 return None
 
             def at_exit(self, fn, st, blk):
@@ -1093,7 +1121,7 @@ def check_local_ownership(P, ctx):
                 continue
             seen.add((v, cr))
             r9.violation("%s:%s<-%s" % (f.name, v, cr), "%s: the object in `%s` (from %s) is %s: it is neither released (%s), stored, returned nor handed over on this path"
-                         % (f.name, v, cr, why, "/".join(sorted(OWN_PAIRS.get(cr) or OUT_CREATORS[cr][1]))), loc=f.loc(nid) if nid is not None else f.file)
+                         % (f.name, v, cr, why, "/".join(sorted(OWN_PAIRS.get(cr) or outc[cr][1]))), loc=f.loc(nid) if nid is not None else f.file)
         if not bad:
             r9.ok("%s: every locally obtained object has an owner at every exit" % f.qname, "ownership typestate on all paths")
     if ninst < 60:
@@ -1176,6 +1204,153 @@ def check_drain_loops(P, ctx, tables):
                     r.ok("%s: the loop ends only when %s says the collection is empty" % (f.qname, f.show(cond)[:50]), "loop condition vs. the remover's effect")
     if n < 1:
         raise Broken("C08.R11: no draining loop found on the close/cleanup path (ctl_destroy expected)")
+
+
+# out-parameter creators whose object lands in a field (&rec->f); success is the value 0 of the result
+FIELD_OUT_CREATORS = {"ares_init_options": (0, {"ares_destroy"})}
+
+
+def check_record_teardown(P, ctx):
+    """R14: a function that builds a record (allocates it, fills owning fields from creators) and gives up on a failure
+    path frees the record itself - by then every field that already owns something on that path must have been
+    released: the record is the only reference.  Path-sensitive: which fields own something depends on how far the
+    function got (a creator that failed handed out nothing)."""
+    r = ctx.rule("C08.R14", "a half-built record is freed only after the fields that already own something were released")
+    allrel = set()
+    for v in OWN_PAIRS.values():
+        allrel |= v
+    nrec = 0
+    for f in P.functions:
+        if not f.file.startswith(("libxcm/", "common/")):
+            continue
+        # locals that hold a freshly allocated record
+        recs = set()
+        for nid, n in f.nodes.items():
+            if n["k"] == "decl":
+                for v in n["vars"]:
+                    if v.get("init") is not None and "*" in (v.get("t") or "") and "struct" in (v.get("t") or ""):
+                        c = f.sn(v["init"])
+                        if c["k"] == "call" and c.get("callee") in ("ut_malloc", "ut_calloc", "malloc", "calloc"):
+                            recs.add(v["name"])
+        if not recs or not any(f.nodes[c].get("callee") in ("ut_free", "free") for c in f.calls()):
+            continue
+
+        def field_of(fn, nid):
+            """(record local, field) for `rec->f`"""
+            m = fn.sn(nid)
+            if m["k"] == "member" and m.get("field"):
+                b = fn.sn(m["base"])
+                if b["k"] == "ref" and b.get("name") in recs:
+                    return (b["name"], m["field"])
+            return None
+        bad = []
+        nown = [0]
+
+        class Tear(C.Rule):
+            def initial(self, fn):
+                return frozenset()        # (record, field, creator, variable the outcome is pending in | None)
+
+            def elem(self, fn, st, nid, blk, idx):
+                n = fn.nodes[nid]
+                k = n["k"]
+                if k == "bin" and n["op"] == "=":
+                    lf = field_of(fn, n["l"])
+                    ln = fn.sn(n["l"])
+                    rn = fn.sn(n["r"])
+                    if lf and rn["k"] == "call" and (rn.get("callee") or "") in OWN_PAIRS:
+                        nown[0] += 1
+                        return frozenset(x for x in st if (x[0], x[1]) != lf) | {(lf[0], lf[1], rn["callee"], None)}
+                    # *rec = (struct T) { .f = creator(...) }
+                    if ln["k"] == "un" and ln["op"] == "*" and fn.sn(ln["sub"]).get("name") in recs:
+                        rec = fn.sn(ln["sub"])["name"]
+                        for x in fn.walk(n["r"]):
+                            m = fn.nodes[x]
+                            if m["k"] == "init" and m.get("fields"):
+                                for fld, e in zip(m["fields"], m["elems"]):
+                                    en = fn.sn(e)
+                                    if en["k"] == "call" and (en.get("callee") or "") in OWN_PAIRS:
+                                        nown[0] += 1
+                                        st = st | {(rec, fld, en["callee"], None)}
+                        return st
+                    # the result of a field out-creator kept in a local
+                    if rn["k"] == "call" and (rn.get("callee") or "") in FIELD_OUT_CREATORS and ln["k"] == "ref":
+                        return self._out(fn, st, rn, ln["name"])
+                    return None
+                if k == "decl":
+                    for v in n["vars"]:
+                        if v.get("init") is not None:
+                            c = fn.sn(v["init"])
+                            if c["k"] == "call" and (c.get("callee") or "") in FIELD_OUT_CREATORS:
+                                st = self._out(fn, st, c, v["name"])
+                    return st
+                if k == "call":
+                    name = n.get("callee") or ""
+                    if name in ("ut_free", "free") and n["args"]:
+                        a = fn.sn(n["args"][0])
+                        if a["k"] == "ref" and a.get("name") in recs:
+                            for x in st:
+                                if x[0] == a["name"]:
+                                    bad.append((x, nid))
+                            return frozenset(x for x in st if x[0] != a["name"])
+                    for a in n["args"]:
+                        lf = field_of(fn, a)
+                        if lf and (name in allrel or name.endswith(("_free", "_destroy")) or any(name in FIELD_OUT_CREATORS[c_][1] for c_ in FIELD_OUT_CREATORS)):
+                            st = frozenset(x for x in st if (x[0], x[1]) != lf)
+                    return st
+                if k == "return":
+                    return frozenset()
+                return None
+
+            def _out(self, fn, st, call, var):
+                ai = FIELD_OUT_CREATORS[call["callee"]][0]
+                if ai < len(call["args"]):
+                    a = fn.sn(call["args"][ai])
+                    if a["k"] == "un" and a["op"] == "&":
+                        lf = field_of(fn, a["sub"])
+                        if lf:
+                            nown[0] += 1
+                            return st | {(lf[0], lf[1], call["callee"], var)}
+                return st
+
+            def branch(self, fn, st, blk, cond, label):
+                if label not in ("T", "F"):
+                    return None
+                l, op, r_ = C.cond_atom(fn, cond, label == "T")
+                c = r_[1] if isinstance(r_, tuple) else C.const_of(fn, r_)
+                ln = fn.sn(l)
+                if c is None or ln["k"] != "ref":
+                    return None
+                pend = [x for x in st if x[3] == ln.get("name")]
+                if not pend:
+                    return None
+                failed = (op == "==" and c != 0) or (op == "!=" and c == 0) or (op == "<" and c <= 0) or (op == ">" and c >= 0)
+                ok = (op == "==" and c == 0)
+                if failed:
+                    return frozenset(x for x in st if x not in pend)
+                if ok:
+                    return frozenset(x for x in st if x not in pend) | {(x[0], x[1], x[2], None) for x in pend}
+                return None
+        try:
+            C.explore(f, Tear(), max_states=60000)
+        except RuntimeError:
+            r.note("%s: exploration budget exceeded" % f.qname)
+            continue
+        if nown[0] == 0:
+            continue
+        nrec += 1
+        r.instance("%s (record %s)" % (f.qname, ", ".join(sorted(recs))))
+        seen = set()
+        for x, nid in bad:
+            if x[:3] in seen:
+                continue
+            seen.add(x[:3])
+            rel = OWN_PAIRS.get(x[2]) or FIELD_OUT_CREATORS[x[2]][1]
+            r.violation("%s:%s.%s<-%s" % (f.name, x[0], x[1], x[2]), "%s frees the record `%s` on a path on which its field `%s` still owns what %s() produced: nothing else refers to "
+                        "it, so it is never released (%s)" % (f.name, x[0], x[1], x[2], "/".join(sorted(rel))), loc=f.loc(nid))
+        if not bad:
+            r.ok("%s: every path that frees the half-built record has released its owning fields" % f.qname, "field-ownership typestate on all paths")
+    if nrec < 1:
+        raise Broken("C08.R14: no record-building function with a failure path found")
 
 
 def check_active_fd_share(P, ctx):
